@@ -1082,7 +1082,7 @@ func checkCloseFlush(r *Run, p *Prog) {
 				if !vis[ex.P] {
 					continue
 				}
-				if ex.Return == nil || (len(ex.Return.Results) == 1 && isNilIdent(fn, ex.Return.Results[0])) {
+				if ex.Return == nil || mayReturnNilError(fn, ex.Return) {
 					skips = true
 				}
 			}
